@@ -18,11 +18,12 @@ from ..engine.nandomain import F, NanInterp, nan
 from ..engine.report import AnalysisError, Run
 from ..engine.resolver import ClassInfo, FuncInfo, Program, body_walk
 from ..engine.util import canon, method_call, nodes_with_call, u
-from ._c06_util import Flow, HelperCalls, Site, first_run_sync_name, rereport, validity_name, lifted, names_eq, pruned, result_sites, seg, select_ifexp, src_patch, stmt_patch, unawait
+from ._c06_util import Flow, HelperCalls, Site, first_run_sync_name, rereport, validity_name, lifted, names_eq, pruned, result_sites, seg, select_ifexp, src_patch, stmt_patch, tri, truth_atom, unawait
 
 STEPS = "timeseries.formula_engine._formula_steps"
 EVAL = "timeseries.formula_engine._formula_evaluator"
 ENGINE = "timeseries.formula_engine._formula_engine"
+RFB = "timeseries.formula_engine._resampled_formula_builder"
 
 
 def step_classes(prog: Program) -> list[ClassInfo]:
@@ -571,6 +572,188 @@ def check_read(run: Run, prog: Program) -> None:
     run.ok("C13.READ", "no reader of `<fetcher>.stream` outside MetricFetcher in timeseries.formula_engine")
 
 
+
+# ---------------------------------------------------------------------------------------------
+def stream_converters(prog: Program) -> list[tuple[FuncInfo, ast.Call, FuncInfo]]:
+    """(holder, `.map(f)` call, f as a function) for every per-sample conversion put on a resampled stream by the
+    formula-engine package before it reaches a MetricFetcher: the callable handed to `<receiver>.map(...)`, a lambda
+    (read as `def f(p): return <body>`) or a function defined next to the call."""
+    import copy
+
+    out: list[tuple[FuncInfo, ast.Call, FuncInfo]] = []
+    for fn in prog.all_functions():
+        if fn.module.name != RFB:
+            continue
+        for c in (x for x in ast.walk(fn.node) if isinstance(x, ast.Call)):
+            if not (isinstance(c.func, ast.Attribute) and c.func.attr == "map" and len(c.args) == 1 and not c.keywords):
+                continue
+            f = c.args[0]
+            node: Any = None
+            if isinstance(f, ast.Lambda):
+                node = ast.FunctionDef(name="<lambda>", args=f.args, body=[ast.copy_location(ast.Return(value=f.body), f.body)],
+                                       decorator_list=[], returns=None, type_comment=None, type_params=[])
+                ast.copy_location(node, f)
+                ast.fix_missing_locations(node)
+            elif isinstance(f, ast.Name):
+                node = next((x for x in ast.walk(fn.node) if isinstance(x, ast.FunctionDef) and x.name == f.id and x is not fn.node), None)
+                if node is None and f.id in fn.module.functions:
+                    node = fn.module.functions[f.id].node
+            elif isinstance(f, ast.Attribute) and u(f.value) == "self" and fn.cls is not None:
+                m = prog.resolve_method(fn.cls, f.attr)
+                node = m.node if m is not None else None
+            if node is None:
+                raise AnalysisError(f"{fn.qual}: cannot read the conversion `{u(f)}` put on the stream by `{u(c)[:60]}`")
+            out.append((fn, c, FuncInfo(getattr(node, "name", "<lambda>"), fn.module, node, None, fn)))
+            _ = copy
+    return out
+
+
+def check_conv(run: Run, prog: Program) -> None:
+    """C13.CONV ("None exactly when some input ... is missing"): before a resampled sample reaches its MetricFetcher
+    it is converted (Sample[Quantity] -> Sample[QuantityT]).  Decided per scenario on the paths of the conversion:
+    value present -> every sample it can return carries `create(<that value>.base_value)`, never None, whatever
+    the number is (0.0, -0.0, negative); value None -> None; the timestamp is handed through.  Only a None test of
+    the sample's value (or plain truthiness of that Quantity-or-None, Quantity defines no __bool__) separates the
+    two; a test on the extracted number (`if base_value`, `x or None`, `> 0`) is undecided in the scenario and so
+    lets a present reading leave as None."""
+    convs = stream_converters(prog)
+    if not convs:
+        raise AnalysisError(f"{RFB}: no per-sample conversion (`<receiver>.map(...)`) found on the resampled streams")
+    for holder, call, fn in convs:
+        run.analysed(holder.qual)
+        ps = [p for p in fn.params if p not in ("self", "cls")]
+        if len(ps) != 1:
+            raise AnalysisError(f"{holder.qual}: the conversion `{u(call.args[0])[:40]}` does not take exactly one sample")
+        p = ps[0]
+        fl = Flow(prog, fn)
+        sites = result_sites(fl, lambda c: u(c.func).split("[")[0] == "Sample")
+
+        def is_param(e: ast.AST, flow: Any, nid: int) -> bool:
+            o = flow.origin(e, nid)
+            return bool(o) and all(q.kind == "param" and q.name == p and q.flow is fl for q in o)
+
+        def is_value(e: ast.AST, flow: Any, nid: int) -> bool:
+            """`e` denotes <the incoming sample>.value (directly or through a local)"""
+            o = flow.origin(e, nid)
+            return bool(o) and all(q.kind == "expr" and isinstance(q.node, ast.Attribute) and q.node.attr == "value"
+                                   and is_param(q.node.value, q.flow, q.nid) for q in o)
+
+        depth = [0]
+
+        def noneness(flow: Any, nid: int, e: ast.AST, af: Any) -> bool | None:
+            """Is the (Optional) local `e` None in the scenario?  Decided when all it can hold agrees: None / the sample's
+            value itself / a number or object made from it."""
+            if depth[0] > 3:
+                return None
+            depth[0] += 1
+            try:
+                verdicts: set[bool | None] = set()
+                for f2, n2, x in leaves(flow, nid, e, af):
+                    if isinstance(x, ast.Constant):
+                        verdicts.add(x.value is None)
+                    elif is_value(x, f2, n2):
+                        verdicts.add(af(f2)(ast.Compare(left=x, ops=[ast.Is()], comparators=[ast.Constant(None)]), n2))
+                    elif isinstance(x, ast.Call) or (isinstance(x, ast.Attribute) and x.attr == "base_value"):
+                        verdicts.add(False)
+                    else:
+                        verdicts.add(None)
+                return verdicts.pop() if len(verdicts) == 1 else None
+            finally:
+                depth[0] -= 1
+
+        def scene(present: bool) -> Any:
+            memo: dict[int, Any] = {}
+
+            def for_flow(flow: Any) -> Any:
+                if id(flow) in memo:
+                    return memo[id(flow)]
+
+                def atom(e: ast.AST, nid: int) -> bool | None:
+                    ta = truth_atom(e)
+                    if ta is not None and is_value(ta[0], flow, nid):
+                        return (not present) if ta[1] else present
+                    if isinstance(e, (ast.Name, ast.Attribute)) and is_value(e, flow, nid):
+                        return present  # a Quantity is always truthy: this is the None test
+                    if ta is not None and isinstance(ta[0], ast.Name):
+                        v = noneness(flow, nid, ta[0], for_flow)
+                        return None if v is None else (v if ta[1] else not v)
+                    if isinstance(e, ast.Name) and noneness(flow, nid, e, for_flow) is True:
+                        return False  # None is falsy; the truth value of a number is NOT decided
+                    return None
+                memo[id(flow)] = lifted(flow, atom)
+                return memo[id(flow)]
+            return for_flow
+
+        def leaves(flow: Any, nid: int, expr: ast.AST, af: Any, fuel: int = 6) -> list[tuple[Any, int, ast.AST]]:
+            out: list[tuple[Any, int, ast.AST]] = []
+            for alt in select_ifexp(expr, lambda e: af(flow)(e, nid)):
+                if isinstance(alt, ast.BoolOp):
+                    # `a and b` / `a or b` yields one of its operands: the first whose truth value stops the evaluation
+                    # (each undecided operand is a possible result), else the last
+                    stop_on = isinstance(alt.op, ast.Or)
+                    for i, v in enumerate(alt.values):
+                        t = tri(v, lambda e: af(flow)(e, nid)) if i < len(alt.values) - 1 else stop_on
+                        if t is None or t == stop_on:
+                            out.extend(leaves(flow, nid, v, af, fuel))
+                        if t == stop_on:
+                            break
+                    continue
+                if isinstance(alt, ast.Name) and fuel > 0:
+                    for o in flow.origin(alt, nid, through_helpers=False):
+                        if o.kind != "expr" or o.node is None or o.nid is None:
+                            out.append((flow, nid, alt))
+                        elif o.flow.cfg.path(o.flow.cfg.entry, [o.nid], edge_ok=pruned(o.flow.cfg, af(o.flow))) is None:
+                            continue
+                        else:
+                            out.extend(leaves(o.flow, o.nid, o.node, af, fuel - 1))
+                else:
+                    out.append((flow, nid, alt))
+            return out
+
+        def kind(flow: Any, nid: int, e: ast.AST, af: Any, present: bool) -> str:
+            if isinstance(e, ast.Constant) and e.value is None:
+                return "None"
+            if is_value(e, flow, nid):
+                return "the unconverted value" if present else "None"
+            if isinstance(e, ast.Call) and len(e.args) + len(e.keywords) == 1 and u(e.func) in ("self._create_method", "self._create"):
+                arg = e.args[0] if e.args else e.keywords[0].value
+                inner = leaves(flow, nid, arg, af)
+                if inner and all(isinstance(x, ast.Attribute) and x.attr == "base_value" and is_value(x.value, f2, n2) for f2, n2, x in inner):
+                    return "created"
+                return "created from " + ", ".join(sorted({u(x) for _f, _n, x in inner}))
+            return f"`{u(e)[:50]}`"
+
+        for present, want in ((True, "created"), (False, "None")):
+            af = scene(present)
+            got: set[str] = set()
+            for s_ in sites:
+                if any(f2.cfg.path(f2.cfg.entry, [n2], edge_ok=pruned(f2.cfg, af(f2))) is None for f2, n2 in s_.chain):
+                    continue
+                v = s_.args(["timestamp", "value"]).get("value")
+                if v is None:
+                    got.add("<no value argument>")
+                    continue
+                got |= {kind(f2, n2, leaf, af, present) for f2, n2, leaf in leaves(s_.flow, s_.nid, v, af)}
+            label = "a present value is handed on as create(value.base_value)" if present else "a None value stays None"
+            run.check(got == {want}, "C13.CONV", holder.qual, label,
+                      (f"the conversion put on the resampled stream (`{u(call.args[0])[:40]}`) can turn a sample whose value is present into "
+                       f"{sorted(got - {want})}: what decides between `None` and the converted value is not (only) a None test of the "
+                       "sample's value but a test on the number itself, so a reading of exactly 0.0 / -0.0 (or whatever the test "
+                       "rejects) reaches MetricFetcher as *missing* -- the formula emits None (or counts a fallback in) for a "
+                       "timestamp at which no input is missing.  The same holds for `x or None`, `if base_value`, `> 0` spellings"
+                       if present else
+                       f"the conversion maps a sample without value to {sorted(got)} instead of None"),
+                      node=call, file=holder.file, instance=f"{holder.qual}: {label}")
+        ts_ok = bool(sites)
+        for s_ in sites:
+            t = s_.args(["timestamp", "value"]).get("timestamp")
+            o = s_.flow.origin(t, s_.nid) if t is not None else []
+            ts_ok = ts_ok and bool(o) and all(q.kind == "expr" and isinstance(q.node, ast.Attribute) and q.node.attr == "timestamp"
+                                             and is_param(q.node.value, q.flow, q.nid) for q in o)
+        run.check(ts_ok, "C13.CONV", holder.qual, "the sample's timestamp is handed through",
+                  "the converted sample does not carry the timestamp of the sample it was made from", node=call, file=holder.file)
+
+
 # ---------------------------------------------------------------------------------------------
 def build_controls(prog: Program) -> list[tuple[str, str, str, str, str]]:
     """Seeded in-memory controls cut out of the live source at structurally located anchors."""
@@ -656,8 +839,18 @@ def build_controls(prog: Program) -> list[tuple[str, str, str, str, str]]:
     for nm, md, o_, n_, _r in _c06.build_controls(prog):
         if nm in ("drain loops interchanged", "steps before synchronisation"):
             out.append((nm, md, o_, n_, "C13.SYNC"))
+    # CONV: presence of a resampled reading judged by the truth value of the number
+    for holder, _call, cf in stream_converters(prog):
+        for cmp_ in (x for x in ast.walk(cf.node) if isinstance(x, ast.Compare) and truth_atom(x) is not None):
+            operand, is_none = truth_atom(cmp_)  # type: ignore[misc]
+            txt, otxt = seg(holder.module, cmp_), seg(holder.module, operand)
+            if txt and otxt:
+                new = f"not {otxt}.base_value" if is_none else f"{otxt}.base_value"
+                add("a zero reading counts as missing", RFB, stmt_patch(holder, cmp_, lambda t, txt=txt, new=new: t.replace(txt, new, 1)), "C13.CONV")
+                break
+        break
     if len(out) < 6:
-        raise AnalysisError(f"C13: only {len(out)} of 12 seeded controls could be derived from the source ({[o[0] for o in out]})")
+        raise AnalysisError(f"C13: only {len(out)} of 13 seeded controls could be derived from the source ({[o[0] for o in out]})")
     return out
 
 
@@ -700,6 +893,7 @@ def run_rules(run: Run, prog: Program) -> None:
     check_fetcher(run, prog)
     check_read(run, prog)
     check_emit(run, prog)
+    check_conv(run, prog)
 
 
 def check(run: Run, prog: Program, tier: str) -> str:
@@ -719,7 +913,10 @@ def check(run: Run, prog: Program, tier: str) -> str:
              "steps absorb into finite numbers)")
     run.rule("C13.READ", "a metric fetcher's stream is advanced only through fetch_next() (which stores the "
              "sample apply() pushes)")
+    run.rule("C13.CONV", "the per-sample conversion on a resampled stream hands a present value on as create(value.base_value) "
+             "whatever the number (0.0 included) and maps None to None; only a None test of the value separates the two")
     run_rules(run, prog)
+    run.floor("C13.CONV", 3)
     run.floor("C13.UNDEF", 1)
     run.floor("C13.EMIT", 2)
     run.floor("C13.SYNC", 8)
